@@ -60,6 +60,17 @@ Kd(api, oc, n) == [api |-> api, oc |-> oc, n |-> n]
 \*     response is a 5xx).  Do / DoWithFallback take no predicate: theirs is "err == nil" (n unused).
 \*     "success iff its error satisfies the caller's acceptable-predicate": nothing else decides,
 \*     in particular not whether the error is nil.  A panic never reaches the predicate: failure.
+\* Allow + promise (api = "allow"): oc = accept | reject is what the caller reports through the promise;
+\* for reject, n is the class of the free-text REASON handed to Promise.Reject(reason):
+\*     0 = a short text, 1 = the empty string (the interface documents the call as "Promise.Reject()"),
+\*     2 = a long text (several KiB), 3 = a text with line breaks, format verbs and a NUL byte.
+\*     The reason is diagnostic only (it feeds the error report of the logging wrapper): "every
+\*     admitted call records exactly one outcome" - Reject is one failure WHATEVER the reason, so
+\*     CoreEffect does not look at n.  (accept carries no argument: n = 0.)
+\* The breaker NAME carries how the instance came into being (the drivers read it off the first
+\* letter): "p.." = breaker.New(WithName(..)), "q.." = breaker.New() (generated name), anything
+\* else = the process-wide registry (breaker.Get(name) / the package-level Do* functions).  All
+\* three are the same abstract breaker: nothing in this specification depends on the name.
 PredBit(oc) == CASE oc = "ok" -> 1 [] oc = "acc" -> 2 [] oc = "err" -> 4 [] OTHER -> 0
 PredOf(k) == IF k.api \in {"do", "dofb"} THEN 1 ELSE k.n
 Accepts(mask, oc) == PredBit(oc) # 0 /\ (mask \div PredBit(oc)) % 2 = 1
@@ -83,7 +94,12 @@ BaseKindsSucc == <<Kd("do", "ok", 0), Kd("doacc", "ok", 3), Kd("doacc", "acc", 3
                    Kd("dofbacc", "ok", 3), Kd("dofbacc", "acc", 3), Kd("allow", "accept", 0)>>
 BaseKindsFail == <<Kd("do", "err", 0), Kd("do", "panic", 0), Kd("doacc", "err", 3), Kd("doacc", "panic", 3),
                    Kd("dofb", "err", 0), Kd("dofb", "panic", 0), Kd("dofbacc", "err", 3),
-                   Kd("dofbacc", "panic", 3), Kd("allow", "reject", 0), Kd("do", "acc", 0), Kd("dofb", "acc", 0)>>
+                   Kd("dofbacc", "panic", 3), Kd("allow", "reject", 0), Kd("do", "acc", 0), Kd("dofb", "acc", 0),
+                   Kd("allow", "reject", 1), Kd("allow", "reject", 2), Kd("allow", "reject", 3)>>
+\* the promise family: Accept and Reject with every class of reason
+PromiseKindsSucc == <<Kd("allow", "accept", 0)>>
+PromiseKindsFail == [i \in 1..4 |-> Kd("allow", "reject", i - 1)]    \* reason classes 0..3
+
 CoreKindsSucc == BaseKindsSucc \o SelectSeq(PredKindsSucc, LAMBDA k : k.n # 3)
 CoreKindsFail == BaseKindsFail \o SelectSeq(PredKindsFail, LAMBDA k : k.n # 3)
 CoreKinds == SeqRange(CoreKindsSucc) \cup SeqRange(CoreKindsFail)
